@@ -175,7 +175,19 @@ func c08Check(w *World, s *Setup, p ParentRef, changeStep int) *Violation {
 		}
 		w.Probe("c08:sync-left-rollout-waiting")
 		allHealthyAlways := true
-		for _, key := range latestBefore.Claims {
+		// the gate looks at every child the latest revision claims once unclaimed
+		// children have been handed to it in this very sync
+		gateSet := append([]string{}, latestBefore.Claims...)
+		for _, r := range rs.after {
+			if r.Name == rs.latestRev {
+				for _, c := range r.Claims {
+					if !latestBefore.claims(c) {
+						gateSet = append(gateSet, c)
+					}
+				}
+			}
+		}
+		for _, key := range gateSet {
 			if rs.desired[""][key] == nil {
 				continue
 			}
